@@ -322,6 +322,65 @@ def run_mc_end(case):
   return R(None, True, (mask, L))
 
 
+# ------------------------------------------------- modulo_counter, float arguments
+MCF_START = [0.0, -1e-20, -1e-17, -5e-324, 1e-20, 4.999999999999999, -0.5, 7.3, -2.0 ** -54]
+MCF_MOD = [5.0, 1.0, 256.0, -5.0]
+MCF_STEP = [1.0, 0.3, 2.5, "mod", -1.0, 0.0, 1e-20, -1e-20, "mod/2", "mod/3"]
+
+
+def gen_mc_float(run):
+  for si in range(len(MCF_START)):
+    for mi in range(len(MCF_MOD)):
+      for ti in range(len(MCF_STEP)):
+        yield (si, mi, ti)
+
+
+def run_mc_float(case):
+  """Floats: rounding makes the closed form inexact, but the range [0, modulo) is promised for
+  every argument kind and path (a start a rounding error below zero is the documented 'bizarre
+  modulo' case: x % m can equal m), and all eight numbers-vs-streams paths agree on the circle."""
+  si, mi, ti = case
+  S, M = MCF_START[si], MCF_MOD[mi]
+  T = {"mod": M, "mod/2": M / 2, "mod/3": M / 3}.get(MCF_STEP[ti], MCF_STEP[ti])
+  N = 14
+  outs = {}
+  for mask in range(8):
+    a = Stream([S] * N) if mask & 1 else S
+    m = Stream([M] * N) if mask & 2 else M
+    t = Stream([T] * N) if mask & 4 else T
+    try:
+      got = modulo_counter(a, m, t).take(N)
+    except Exception as exc:
+      return bad("modulo_counter:exception:" + type(exc).__name__, "modulo_counter raised (float arguments)",
+                 {"args": [S, M, T], "streams": mask}, str(exc)[:200])
+    if len(got) != N:
+      return bad("modulo_counter:length", "counter ended early", N, len(got))
+    inside = (lambda v: 0 <= v < M) if M > 0 else (lambda v: M < v <= 0)
+    k = next((i for i, v in enumerate(got) if not inside(v)), None)
+    if k is not None:
+      return bad("modulo_counter:range", "output outside [0, modulo) with float arguments",
+                 {"n": k, "args": [S, M, T], "streams": mask}, repr(got[k]))
+    outs[mask] = got
+  A = abs(M)
+  for mask in range(1, 8):
+    for i, (g, e) in enumerate(zip(outs[mask], outs[0])):
+      d = abs(g - e) % A
+      if min(d, A - d) > 1e-9 * (1 + A + abs(S)):
+        return bad("modulo_counter:paths", "numbers and streams arguments must give the same counter",
+                   {"n": i, "args": [S, M, T], "streams": mask, "numbers": e}, g)
+  # the oscillator built on it: a phase a rounding error below zero must still interpolate
+  if M > 0 and S < 0 and abs(S) < 1e-9:
+    tbl = [0., 1., 0., -1.]
+    try:
+      got = TableLookup(list(tbl))(math.pi / 8, phase=S).take(10)
+    except Exception as exc:
+      return bad("table:exception:" + type(exc).__name__, "TableLookup call raised for a tiny negative phase",
+                 {"phase": S}, str(exc)[:200])
+    if any(abs(g - e) > 1e-9 for g, e in zip(got, [0., .25, .5, .75, 1., .75, .5, .25, 0., -.25])):
+      return bad("table:value", "TableLookup is not the cyclic linear interpolation of its table", None, got)
+  return R(None, True, (S < 0, M < 0, T == 0))
+
+
 # -------------------------------------------------------------- TableLookup
 def gen_table(run):
   for size in (1, 2, 3, 4, 5):
@@ -574,6 +633,8 @@ KINDS = OrderedDict([
   ("noise", Kind(gen_noise, run_noise, chunk=20, rule="noise durations x ranges x random-source answers")),
   ("modulo_counter", Kind(gen_modcounter, run_modcounter, chunk=50,
                           rule="start x modulo x step x 8 numbers-vs-streams masks; non-trivial: a Stream argument or a wrap")),
+  ("modulo_counter-float", Kind(gen_mc_float, run_mc_float, chunk=20,
+                                rule="(float start, modulo, step) x all 8 argument-kind paths; range and path agreement")),
   ("modulo_counter-end", Kind(gen_mc_end, run_mc_end, chunk=10, rule="shortest stream argument ends the counter")),
   ("table", Kind(gen_table, run_table, chunk=20, rule="table size x cycles x step x phase")),
   ("table-ops", Kind(gen_table_ops, run_table_op, chunk=5, rule="table operators, harmonize, normalize")),
